@@ -75,8 +75,10 @@ def extract_block_template(src, rep, all_terms=False):
             raise strlang.Raised('IndexError')
         return it.decide(('pred', '%s[%s]' % (lst.src, norm(subs[0].slice)), norm(test)), norm(test))
 
+    helpers = strlang.class_helpers(f.module, 'ChangeBlock', skip=('_format', 'changes', '__str__', '__bytes__'))
+
     def run(dec):
-        it = strlang.Interp(dec, cls='ChangeBlock', cond_hook=cond_hook)
+        it = strlang.Interp(dec, cls='ChangeBlock', cond_hook=cond_hook, methods=helpers)
         env = {'self': Obj('self', shape)}
         for p in params[1:]:
             env[p] = BoolUnknown(p)
